@@ -86,6 +86,12 @@ PATHS = [
     ("direct-label-data", "string(label_data({S}, {S2}))"), ("direct-interval-sum", "sum([x for x in {S}])"), ("direct-reduce-add", "reduce(list({S}), fn(a, b) a + b)"),
     ("wrong-named-args", "sorted({L}, kee = 1, reverse_ = 2, zz = 3)"), ("wrong-named-args-spread", "def f(a) a; f(...<<<'x' => 1, 'yy' => 2, 'b' => 3>>>)"),
     ("wrong-named-args-lambda", "(fn(p, q = 1) p)(1, zeta = 1, alpha = 2, mid = 3)"), ("missing-members", "def o = <*a = 1*>; [o->zz, o->yy]"),
+    ("destr-assign-set", "def p = 0; def q = 0; [p, q] = {S}; [p, q]"),
+    ("destr-for-values-sets", "def acc = []; for [p, q] in values <<<1 => {S}, 2 => {S2} >>> do append(acc, [p, q]) end; acc"),
+    ("destr-for-keys-sets", "def acc = []; for [p, q] in keys <<< {S} => 1, {S2} => 2 >>> do append(acc, [p, q]) end; acc"),
+    ("destr-for-member-sets", "def acc = []; for [p, q] in values <*a = {S}, b = {S2} *> do append(acc, [p, q]) end; acc"),
+    ("direct-join-map", "join({M}, '|')"), ("direct-first-last-map", "[first({M}), last({M})]"), ("render-list-of-map", "string(list({M}))"),
+    ("direct-reverse-map", "string(reverse({M}))"), ("direct-enumerate-map", "string(enumerate({M}))"), ("direct-unique-map", "string(unique({M}))"),
     ("type-checks", "[x is string for x in {S}]"), ("contains", "[contains({S}, 'a'), 'a' in {M}]"), ("if-empty", "[{S} is empty, {M} is not empty]"),
 ]
 
@@ -96,6 +102,7 @@ def plan(tier, seed):
     n = 8 if tier == "quick" else 32
     specs += [{"kind": "shuffle", "rounds": 2 if tier == "quick" else 14} for _ in range(n)]
     specs += [{"kind": "permute", "rounds": 3 if tier == "quick" else 16} for _ in range(n // 2)]
+    specs += [{"kind": "agree", "rounds": 16 if tier == "quick" else 80} for _ in range(2 if tier == "quick" else 6)]
     return specs
 
 
@@ -110,6 +117,29 @@ POOLS = {"str": STR_ELEMS, "mix": MIX_ELEMS, "dec": DEC_ELEMS, "set": SET_ELEMS,
          "pun-numbool": NUMBOOL_ELEMS, "pun-strpat": STRPAT_ELEMS, "pun-mixed": PUN_ELEMS}
 # every kind of pool is used in turn (string-like ones first: those are the ones a hash seed can reorder)
 KIND_CYCLE = ["pun-strpat", "str", "set", "pun-mixed", "list", "pun-numbool", "mix", "dec"]
+
+
+NUMEQ_VALS = ["1", "1.0", "2", "2.0", "0", "0.0", "[1]", "[1.0]", "[[2]]", "[[2.0]]"]
+
+# enumerations of one set that must all give the same sequence ("all enumerate them in sorted order")
+AGREE_SET = [
+    ("list", "list({S})"), ("comprehension", "[x for x in {S}]"), ("for", "def acc = []; for x in {S} do append(acc, x) end; acc"),
+    ("spread", "def v = {S}; [...v]"), ("sorted", "sorted({S})"), ("append-all", "append_all([], {S})"),
+    ("call-spread", "def v = {S}; (fn(args...) args...)(...v)"), ("filter", "filter({S}, fn(x) TRUE)"),
+]
+AGREE_SET_PREFIX = [
+    ("def-destructuring", "def [p, q] = {S}; [p, q]"), ("assign-destructuring", "def p = 0; def q = 0; [p, q] = {S}; [p, q]"),
+    ("for-destructuring-list", "def acc = []; for [p, q] in [{S}] do acc = [p, q] end; acc"),
+    ("for-destructuring-values", "def acc = []; for [p, q] in values <<<1 => {S} >>> do acc = [p, q] end; acc"),
+    ("for-destructuring-keys", "def acc = []; for [p, q] in keys <<< {S} => 1 >>> do acc = [p, q] end; acc"),
+    ("for-destructuring-members", "def acc = []; for [p, q] in values <*a = {S} *> do acc = [p, q] end; acc"),
+    ("first-two", "[first(list({S})), list({S})[1]]"),
+]
+AGREE_KEYS = [
+    ("keys-comprehension", "[k for k in keys {M}]"), ("keys-for", "def acc = []; for k in keys {M} do append(acc, k) end; acc"),
+    ("keys-set", "list(set({M}))"), ("keys-sorted", "sorted(set({M}))"), ("entries", "[e[0] for e in entries {M}]"),
+    ("for-entries", "def acc = []; for [k, v] in entries {M} do append(acc, k) end; acc"), ("object-keys", "[k for k in keys {M}] == [k for k in keys {M}]"),
+]
 
 
 def gen_collections(r, idx=None):
@@ -136,6 +166,11 @@ def gen_collections(r, idx=None):
         b = [mk(x) for x in xs[: n_ // 2]] + [mk(x + 100000) for x in xs[:5]]
     keys = r.sample(STR_ELEMS if r.random() < 0.7 else MIX_ELEMS, r.randint(2, 4))
     vals = [r.choice(pool + ["NULL", "[1]"]) for _ in keys]
+    if r.random() < 0.35:
+        # equal values that are told apart when rendered: an enumeration ordered by value must not fall back on insertion order
+        vals = [r.choice(NUMEQ_VALS) for _ in keys]
+        i_, j_ = r.sample(range(len(keys)), 2)
+        vals[i_], vals[j_] = r.choice([("1", "1.0"), ("2", "2.0"), ("0", "0.0"), ("[1]", "[1.0]"), ("[[2]]", "[[2.0]]"), ("2.0", "2")])
     skeys = r.sample(["'a'", "'b'", "'ab'", "'z'"], r.randint(1, 4))
     svals = [str(r.randint(1, 9)) for _ in skeys]
     return {"a": a, "b": b, "keys": keys, "vals": vals, "skeys": skeys, "svals": svals}
@@ -231,6 +266,34 @@ def run_shard(spec, ctx):
                         break
         ctx.count("shuffled_set_iterations", shuffle.STATS["set_iters"])
         ctx.count("shuffled_dict_iterations", shuffle.STATS["dict_iters"])
+    elif kind == "agree":
+        R = Runner()
+        for i in range(spec["rounds"]):
+            col = gen_collections(r, ctx.shard * spec["rounds"] + i)
+            S = "<< " + ", ".join(col["a"]) + " >>"
+            M = "<<< " + ", ".join("%s => %s" % kv for kv in zip(col["keys"], col["vals"])) + " >>>"
+            base = R.run("list(%s)" % S)
+            two = R.run("sublist(list(%s), 0, 2)" % S)
+            ctx.count("agree_collections")
+            for group, want, forms in (("set", base, AGREE_SET), ("set-prefix", two, AGREE_SET_PREFIX)):
+                if want[0] != "value":
+                    continue
+                for name, tmpl in forms:
+                    src = tmpl.replace("{S}", S)
+                    got = R.run(src)
+                    ctx.count("agree_runs")
+                    ctx.case((src, "agree"))
+                    if got[:2] != want[:2]:
+                        ctx.violation("C12:enumerations-agree:%s:%s" % (group, name), "%s -> %r, but list(..) of the same set is %r" % (src[:500], got[:2], base[:2]), {"src": src})
+            kb = R.run("[k for k in keys %s]" % M)
+            if kb[0] == "value":
+                for name, tmpl in AGREE_KEYS[:-1]:
+                    src = tmpl.replace("{M}", M)
+                    got = R.run(src)
+                    ctx.count("agree_runs")
+                    ctx.case((src, "agree"))
+                    if got[:2] != kb[:2]:
+                        ctx.violation("C12:enumerations-agree:map-keys:%s" % name, "%s -> %r, but the keys comprehension gives %r" % (src[:500], got[:2], kb[:2]), {"src": src})
     else:
         R = Runner()
         for i in range(spec["rounds"]):
@@ -269,7 +332,7 @@ def finalize(merged, tier):
                 viol.append(("C12:hash-seed:" + name,
                              "%s gives different output under PYTHONHASHSEED=%s and =%s" % (src[:600], hs[0][1]["hashseed"], ex["hashseed"]),
                              {"src": src}))
-    for k in ("hashseed_runs", "shuffle_runs", "permutation_runs", "shuffled_set_iterations", "shuffled_dict_iterations"):
+    for k in ("hashseed_runs", "shuffle_runs", "permutation_runs", "shuffled_set_iterations", "shuffled_dict_iterations", "agree_runs"):
         if c.get(k, 0) == 0:
             reasons.append("monitor counter %s is zero" % k)
     if c.get("harness_syntax_errors", 0):
